@@ -29,6 +29,17 @@ ImplPrimAtoms == Built => /\ Len(R.pu) = Len(R.p2s)
 ImplPrimLattice == Built => R.latticeOK
 ImplPrimAttributes == Built => R.attrsOK
 ImplPrimExact == Built => R.exact
+(* primitive_matrix="auto": what guess_primitive_matrix proposes must be accepted, and the cell it gives must be   *)
+(* truly primitive - no two different atoms of the primitive cell are related by a translation symmetry of the  *)
+(* crystal, i.e. the number of primitive cells equals the number of pure translations of the supercell crystal  *)
+TranslationOf(x, k) == VSub(x.atoms[k].u, x.atoms[1].u)
+IsCrystalTranslation(x, t) ==
+  \A i \in 1..NA(x) : \E j \in 1..NA(x) :
+      x.atoms[j].sp = x.atoms[i].sp /\ KeyS(x, VAdd(x.atoms[i].u, t)) = kS[j]
+NumTranslations(x) ==
+  Cardinality({k \in 1..NA(x) : x.atoms[k].sp = x.atoms[1].sp /\ IsCrystalTranslation(x, TranslationOf(x, k))})
+ImplAutoIsPrimitive == (AtEnd /\ R.auto) => /\ R.status = "built"
+                                           /\ Len(R.perms) = NumTranslations(ev.pin)
 ImplAcceptsP == AtEnd => ReqAcceptsP(ev.pin, R)
 ImplRejectsP == AtEnd => ReqRejectsP(ev.pin, R)
 
